@@ -25,7 +25,9 @@ def cases(tier, r):
     args, kwargs = argstore.gen_init(r, sig, fresh, malformed=0.0, allow_tv=True)
     ops = [o for o in argstore.gen_tag_ops(r, sig, fresh, r.randint(1, 10))
            if o[0] not in ('update_callable', 'copy_with', 'suspend', 'resume')]
-    yield 'tagops', {'p': 'argstore', 'sig': sig, 'args': args, 'kwargs': kwargs, 'ops': ops}
+    # parameters tagged through an Annotated[...] annotation (half of the cases)
+    ann = argstore.gen_ann(r, sig) if r.random() < 0.5 else []
+    yield 'tagops', {'p': 'argstore', 'sig': sig, 'args': args, 'kwargs': kwargs, 'ops': ops, 'ann': ann}
   for _ in range(600 if tier == 'quick' else 10000):
     yield 'dag', {'graph': True, 'seed': r.getrandbits(48), 'size': r.choice([4, 7, 11]),
                   'tag': r.randrange(len(targets.TAGS)),
@@ -107,7 +109,7 @@ def check_exact(root, before, tag, value, deep):
 def execute(case):
   if not case.get('graph'):
     real, cfg = argstore.run_real(case, with_build=False)
-    return real, {k: case[k] for k in ('p', 'sig', 'args', 'kwargs', 'ops')}
+    return real, {k: case[k] for k in ('p', 'sig', 'args', 'kwargs', 'ops', 'ann')}
   root = make_root(case)
   tag = targets.TAGS[case['tag']]
   obs = {'op': case['op']}
@@ -238,7 +240,22 @@ def tagops_oracle(case, real):
     if isinstance(k, int) and 0 <= k < len(pos) and pos[k][1] == 'pk':
       return pos[k][0]
     return k
+  # the constructor: the tag set of an argument is the union of the tags of the TaggedValue
+  # passed for it and of the tags its parameter carries through an Annotated[...] annotation
+  exp0 = {}
+  for i, a in enumerate(case['args']):
+    if 'tv' in a:
+      exp0.setdefault(repr(norm(i)), set()).update(a['tv'])
+  for k, a in case['kwargs']:
+    if 'tv' in a:
+      exp0.setdefault(repr(k), set()).update(a['tv'])
+  for n, ts in case.get('ann') or []:
+    exp0.setdefault(repr(n), set()).update(ts)
   tags = {repr(k): set(ts) for k, ts in real['init']['tags']}
+  if tags != exp0:
+    return {'where': 'constructor', 'what': 'tag sets after construction are not the union of the tags given '
+            'with TaggedValues and the Annotated tags of the parameters',
+            'observed': {k: sorted(v) for k, v in tags.items()}, 'expected': {k: sorted(v) for k, v in exp0.items()}}
   for i, (op, st) in enumerate(zip(case['ops'], real['steps'])):
     now = {repr(k): set(ts) for k, ts in st['state']['tags']}
     exp = {k: set(v) for k, v in tags.items()}
